@@ -99,3 +99,16 @@ func (ca *CA) ValidLeaf(names ...string) tls.Certificate {
 	now := time.Now()
 	return ca.Leaf(now.Add(-time.Hour), now.Add(365*24*time.Hour), names...)
 }
+
+// PEMPair encodes a leaf certificate (with chain) and its key as PEM.
+func PEMPair(c tls.Certificate) (certPEM, keyPEM []byte) {
+	for _, der := range c.Certificate {
+		certPEM = append(certPEM, pem.EncodeToMemory(&pem.Block{Type: "CERTIFICATE", Bytes: der})...)
+	}
+	b, err := x509.MarshalECPrivateKey(c.PrivateKey.(*ecdsa.PrivateKey))
+	if err != nil {
+		panic(err)
+	}
+	keyPEM = pem.EncodeToMemory(&pem.Block{Type: "EC PRIVATE KEY", Bytes: b})
+	return
+}
